@@ -66,6 +66,10 @@ Expandable == { "arch", "platform", "version", "release", "maintainer", "descrip
                 "replaces", "provides", "depends", "recommends", "suggests", "conflicts",
                 "rpm.packager", "rpm.signature.key_file", "rpm.signature.key_id",
                 "deb.signature.key_file", "deb.signature.key_id", "deb.fields", "apk.signature.key_file" }
+(* Fields the pinned implementation expands although the documentation does not say so (the as-is scope): recorded as  *)
+(* drift.  The scope of expansion is part of the property ("scoped"): a field outside Expandable and outside this list  *)
+(* that starts being expanded changes what a '$' in an existing configuration means.                                     *)
+AsIsAlsoExpanded == { "name", "prerelease", "deb.predepends", "ipk.predepends", "ipk.fields", "apk.signature.key_id" }
 StripOverride(path) ==
   LET t == SplitBy(path, ".") IN
   IF Len(t) > 2 /\ t[1] = "overrides" THEN JoinBy(SubSeq(t, 3, Len(t)), ".") ELSE path
